@@ -81,8 +81,12 @@ def main():
     from harness import h_ed
     for flt in ('SizeFilter', 'PrefixFilter', 'PositionFilter', 'SuffixFilter'):
         ck.e2('ed-pair-%s' % flt, h_ed.make(dict(entry='filter_pair', filter=flt, lens=[1, 2] if quick else [1, 2, 3],
-                                                 q=[2], padding=[True], taus=[1] if quick else [1, 2], props=P)),
-              bounds=dict(strings='len <= %d' % (2 if quick else 3), q=2))
+                                                 q=[2], padding=[True], taus=[1], props=P)),
+              bounds=dict(strings='len <= %d' % (2 if quick else 3), q=2) if quick else dict(strings='len <= 3', q=2, tau=1))
+        if not quick:
+            ck.e2('ed-pair-tau2-%s' % flt, h_ed.make(dict(entry='filter_pair', filter=flt, lens=[1, 2], q=[2],
+                                                          padding=[True], taus=[2], props=P)),
+                  bounds=dict(strings='len <= 2', q=2, tau=2))
         ck.e2('ed-pair-two-letters-%s' % flt, h_ed.make(dict(entry='filter_pair', filter=flt, lens_l=[3, 4],
                                                              lens_r=[4, 5] if not quick else [4], alphabet=2, q=[2],
                                                              padding=[True], taus=[1, 2], props=P)),
